@@ -1,5 +1,5 @@
 """C09 - context flows from Subscribe through every callback, never nil (DESIGN 6/C09): Ops.tla is the definition; TLC enumerates, the real code is replayed."""
-import vlib, parts_pipeline as pp, common
+import vlib, parts_multi, tracecheck, parts_pipeline as pp, common
 
 PID = 'C09'
 
@@ -9,6 +9,14 @@ def main(argv):
     vlib.build_harness()
     pp.run(rep, PID, common.pipeline_cfgs(rep, 'values'))
     pp.run(rep, PID, common.pipeline_cfgs(rep, 'faults')[:1], modes='ctl-unsafe')   # the Error raised for a panic carries the context too
+    # multi-source and higher-order operators (zip, combine-latest, merge, ...): the context of every output is the one of the arrival that caused it
+    parts_multi.run(rep, PID, rep.tier == 'thorough')
+    parts_multi.run_ho(rep, PID, rep.tier == 'thorough')
+    parts_multi.run_single(rep, PID, rep.tier == 'thorough')
+    # operators that store or hand off notifications, driven free-running: the subscription marker and the item marker arrive (CtxTrace.tla)
+    thorough = rep.tier == 'thorough'
+    tracecheck.run(rep, PID, 'drive-detach', 'CtxTrace', 'CtxTrace_x.cfg', 400 if thorough else 120, [rep.seed * 100 + 40 + i for i in range(3 if thorough else 1)], 'ctx.handoff', comp_key='Op')
+    tracecheck.run(rep, PID, 'drive-timed', 'CtxTrace', 'CtxTrace_x.cfg', 300 if thorough else 100, [rep.seed * 100 + 50 + i for i in range(3 if thorough else 1)], 'ctx.timed', comp_key='Op')
     rep.cov['rule'] = common.PIPE_RULE
     rep.cov['exhaustive'] = True
     rep.assumptions += ['the reference semantics Ops.tla follows the documentation, and the pinned commit where the documentation is silent',
@@ -18,4 +26,9 @@ def main(argv):
 
 def replay(path):
     vlib.build_harness()
+    if path.endswith('.ndjson'):
+        return tracecheck.replay(PID, 'CtxTrace', 'CtxTrace_x.cfg', path)
+    import json
+    if json.load(open(path))['replay'].get('module') in ('MultiGen', 'HOGen'):
+        return parts_multi.replay_case(PID, path)
     return pp.replay_case(PID, path)
